@@ -56,8 +56,8 @@ CHECKS = {
                 text="History.from_scalar_attribute and from_object_attribute are proved against the documented conventions for every combination of committed value / current value / sentinels (all paths). Bounded complement: mutation sequences on mapped attributes incl. flush.",
                 note="is_equal pure; from_collection, the attribute impls and _modified_event are bounded only"),
     "C38": dict(level="proof", technique=PROOF_TECH, design="DESIGN.md §5 C38",
-                text="the instrumented list operations with an integer index (append, insert, remove, __setitem__, __delitem__, pop) are proved to produce list's contents, return value and exception and exactly the right ghost event log, for lists of any length; remove(absent) firing an event is a KNOWN-FINDING. Bounded complement: all list/set/dict operations incl. slices side by side with the builtins.",
-                note="assumed contracts on the event helpers __set/__del; slices, extend, clear, set and dict decorators bounded only"),
+                text="the instrumented list operations with an integer index (append, insert, remove, __setitem__, __delitem__, pop) are proved to produce list's contents, return value and exception and exactly the right ghost event log, for lists of any length; remove(absent) firing an event is a KNOWN-FINDING. All 13 instrumented set operations (add, discard, remove, pop, clear, update, difference_update, intersection_update, symmetric_difference_update, |= -= &= ^=) are proved for set arguments: members as the builtin's, and an event log that accounts exactly (order-insensitively for the bulk operations) for the members that arrived and left. Bounded complement: all list/set/dict operations incl. slices side by side with the builtins.",
+                note="assumed contracts on the event helpers __set/__set_wo_mutation/__del; list slices, extend, clear, dict decorators and non-set iterable arguments bounded only"),
     "C35": dict(level="proof", technique=PROOF_TECH, design="DESIGN.md §5 C35",
                 text="the five InstanceState lifecycle predicates are proved equal to their documented definitions over (key is None, _attached, _deleted) and the partition (exactly one holds) is a full-domain lemma over those postconditions; native replay on all 8 valuations.",
                 note="transitions and events are not under contract here; `_attached` is read as a boolean attribute"),
